@@ -231,7 +231,7 @@ def report(rep, binary, wd, problems, proof_broken, soft):
     if genuine:
         seq, idx, kind, detail, timing, src = genuine[0]
         small = shrink(binary, seq[:idx + 1], kind, os.path.join(wd, 'shrink'))
-        rep.violation('the real poller pool violates the C18 spec oracle on an in-contract scenario (%d such scenarios; the first is the replay; source %s): %s'
+        rep.violation('the real poller pool violates the C18 spec oracle on a scenario inside the contract of the violated clause (%d such scenarios; the first is the replay; source %s): %s'
                       % (len(genuine), src, detail), small)
     elif others:
         seq, idx, kind, detail, timing, src = others[0]
